@@ -189,6 +189,9 @@ func (s *Sandbox) blobPut(ls *lua.LState) int {
 		ls.ArgError(2, "blob content expected")
 	}
 
+	if s.dryRun {
+		return 0
+	}
 	dOut, err := s.rc.BlobPut(s.ctx, r.r, descriptor.Descriptor{Digest: d}, rdr)
 	if err != nil {
 		ls.RaiseError("Failed to put blob: %v", err)
